@@ -19,7 +19,7 @@ import (
 )
 
 var funcAlias = map[*types.Func]string{} // current function object -> reviewed bare name
-var renameText = map[string]string{}      // current bare name -> reviewed bare name (for rendered expressions)
+var renameText = map[string]string{}     // current bare name -> reviewed bare name (for rendered expressions)
 
 // fname: the reviewed name of f (its own name unless it was renamed).
 func fname(f *types.Func) string {
